@@ -70,7 +70,7 @@ fn wrap_path(path: &[u64], inner: &[u8]) -> Vec<u8> {
 
 /// "Single field" box: at every schema path of depth <= 3 one final field whose
 /// length / value / tag takes every extreme value or odd encoding.
-fn single_field_box() -> Vec<Item> {
+fn single_field_box(thorough: bool) -> Vec<Item> {
     let paths: Vec<(&str, Vec<u64>)> = vec![
         ("model", vec![]),
         ("model.graph", vec![7]),
@@ -81,13 +81,14 @@ fn single_field_box() -> Vec<Item> {
         ("model.opset_import", vec![8]),
         ("model.metadata_props", vec![14]),
     ];
-    let payloads: [&[u8]; 3] = [&[], &[0], &[0; 8]];
+    let payloads: Vec<&[u8]> = if thorough { vec![&[], &[0], &[0; 8]] } else { vec![&[], &[0; 8]] };
+    let prefixes: &[bool] = if thorough { &[false, true] } else { &[false] };
     let mut out = Vec::new();
-    for prefix in [false, true] {
+    for &prefix in prefixes {
         for (pname, path) in &paths {
             for f in 1..=16u64 {
                 // LEN field with extreme length
-                for payload in payloads {
+                for payload in payloads.iter().copied() {
                     for l in gens::len_extremes(payload.len() as u64) {
                         let mut inner = tag(f, 2);
                         inner.extend(vi(l));
@@ -112,7 +113,7 @@ fn single_field_box() -> Vec<Item> {
                 continue;
             }
             for f in [1u64, 2, 15] {
-                for trailing in payloads {
+                for trailing in payloads.iter().copied() {
                     for (name, enc) in gens::odd_varints() {
                         // odd encoding as varint value
                         let mut inner = tag(f, 0);
@@ -239,10 +240,10 @@ pub fn build_set(i: usize, thorough: bool) -> SetSpec {
         3 => SetSpec {
             set: InputSet {
                 name: "single-field box (extreme lengths / odd varints at every schema path of depth<=3)".into(),
-                kind: SetKind::List(single_field_box()),
+                kind: SetKind::List(single_field_box(thorough)),
             },
             mask: ALL_TARGETS,
-            batch: 256,
+            batch: 128,
         },
         4 => SetSpec {
             set: InputSet { name: "nesting box".into(), kind: SetKind::List(nesting_box(thorough)) },
